@@ -37,7 +37,11 @@ VF = [('open',), ('w', 'x'), ('commit-vote-fail',), ('w', 'y'), ('commit',),
       ('close',)]
 RXY2 = [('open',), ('r', 'x'), ('abort',), ('r', 'y'), ('close',)]
 
+HIST = [('open',), ('hist', 'x'), ('hist', 'y'), ('close',)]
+
 HARNESSES = {
+    # history() walks the file while a committer appends to it
+    'writer+history': [W1, HIST],
     # x's current revision was written by an undo (a record that points
     # back to older data): the reader follows the pointer while a committer
     # uses the storage's read/write handle
@@ -161,6 +165,17 @@ def judge_events(w, allow_read_conflict=False):
                 continue        # own uncommitted change
             reads.setdefault((ev[1], ev[2]), []).append(
                 (ev[3], ev[4], ev[5]))
+        elif k == 'history':
+            tl = [t for t, st in byname[ev[3]]]
+            got = [t for t, _, _ in ev[4]]
+            # newest first, a suffix-free slice of the object's revisions
+            # that ends at its creation, with the descriptions as written
+            if (not got or got != sorted(tl[:tl.index(got[0]) + 1
+                                            if got[0] in tl else 0],
+                                         reverse=True)
+                    or any(u or d for _, u, d in ev[4])):
+                viol.append(('value', 'history-not-the-revisions',
+                             dict(event=ev, revisions=tl)))
         elif k == 'read-error':
             if not (allow_read_conflict and ev[5]):
                 viol.append(('error', 'read:%s' % ev[4], dict(event=ev)))
@@ -230,7 +245,15 @@ CATALOG = {
                   ('close',)],
     'r-sync-r': [('open',), ('r', 'y'), ('sync',), ('r', 'x'), ('r', 'y'),
                  ('close',)],
+    # the connection comes back from the pool after resetCaches()
+    'reopen-reset': [('open',), ('r', 'x'), ('close',), ('reset',),
+                     ('open',), ('r', 'x'), ('begin',), ('r', 'x'),
+                     ('r', 'y'), ('close',)],
+    'hist': [('open',), ('hist', 'x'), ('close',)],
 }
+
+
+LONG = ('reopen-reset', 'hist')
 
 
 def interleavings(lens):
@@ -309,7 +332,8 @@ def run(rep, tier, seed, workers):
         'read/write handle, plus a line-level pass over mvccadapter, FilePool, '
         'Connection.open/newTransaction and DB._returnToPool; '
         'interleavings: all merges of 2 (3) step programs from a catalogue '
-        'of 10; non-trivial = execution in which some reader transaction '
+        'of 10, plus 2 longer ones (pool re-use after resetCaches(), '
+        'history()) against the 3 writers; non-trivial = execution in which some reader transaction '
         'read both objects')
     plan = []
     for kind in ('F', 'M'):
@@ -339,11 +363,15 @@ def run(rep, tier, seed, workers):
             '/lines-' + cfg['lines'] if cfg.get('lines') else '')] = b
     schedx.explore_many(rep, MOD, plan2, workers, seed)
     # (a) sequential interleavings
-    names = sorted(CATALOG)
+    names = sorted(n for n in CATALOG if n not in LONG)
     tasks = []
     for kind in ('F', 'M'):
         for pair in itertools.combinations_with_replacement(names, 2):
             tasks.append((MOD, 'seq_task', (kind, pair)))
+        # the long programs only against the writers
+        for n in LONG:
+            for wr in ('wx', 'wxy', 'rxwy'):
+                tasks.append((MOD, 'seq_task', (kind, (n, wr))))
     if tier != 'quick':
         short = [n for n in names if len(CATALOG[n]) <= 4]
         for tri in itertools.combinations_with_replacement(short, 3):
